@@ -176,7 +176,7 @@ __CPROVER_ensures(g_u_state == U_REJECT || g_u_calls == length);
 
 /* ---------------------------------------------------------------- tags */
 cbor_item_t *cbor_new_tag(uint64_t value) ONE_BLOCK_CTOR(sizeof(cbor_item_t),
-    (RET->type == CBOR_TYPE_TAG && TG_META(RET).value == value && TG_META(RET).tagged_item == NULL));
+    (RET->type == CBOR_TYPE_TAG && TG_META(RET).value == value && TG_META(RET).tagged_item == NULL && RET->data == NULL));
 
 /* documented: does not release a previously set item (tags.h) */
 void cbor_tag_set_item(cbor_item_t *tag, cbor_item_t *tagged_item)
